@@ -1441,8 +1441,26 @@ fn with_parens_liberal(expr: &Expression) -> Markup {
 fn pretty_print_binop(op: &BinaryOperator, lhs: &Expression, rhs: &Expression) -> Markup {
     match op {
         BinaryOperator::ConvertTo => {
-            // never needs parens, it has the lowest precedence:
-            lhs.pretty_print() + op.pretty_print() + rhs.pretty_print()
+            // it has the lowest precedence of all operators, but a conditional extends
+            // further to the right, and the operator is left-associative:
+            let lhs_markup = if matches!(lhs, Expression::Condition { .. }) {
+                with_parens(lhs)
+            } else {
+                lhs.pretty_print()
+            };
+            let rhs_markup = if matches!(
+                rhs,
+                Expression::Condition { .. }
+                    | Expression::BinaryOperator {
+                        op: BinaryOperator::ConvertTo,
+                        ..
+                    }
+            ) {
+                with_parens(rhs)
+            } else {
+                rhs.pretty_print()
+            };
+            lhs_markup + op.pretty_print() + rhs_markup
         }
         BinaryOperator::Mul => match (lhs, rhs) {
             (
